@@ -149,16 +149,16 @@ def interplay_families(holes, which="ABCD"):
     if "F" in which:
         out.append(("two type aliases, then a function whose body is a function type over its parameter", aliases_then_function_type, 11))
 
-    def group_under_binder(base):
+    def group_under_binder(base, n=2):
         # (a : type) => (t = a; u = 5; (x : t) => x)        [base = depth of the outer lambda]
         def alpha(node):
             d, s = node.depth - base, node.slot
             if d == 1:
                 return ["Lambda"]
             if d == 2:
-                return ["Type", "Integer"] if s == 0 else ["Let2"]
+                return ["Type", "Integer"] if s == 0 else ["Let%d" % n]
             if d == 3:
-                if s == 4:
+                if s == 2 * n:
                     return ["Lambda", "Variable"]
                 return (["Type", "Integer"] + (["Unifier"] if holes else [])) if s % 2 == 0 else ["Variable", "IntegerLiteral", "Integer"]
             return ["Variable", "Integer"] if s == 0 else ["Variable"]
@@ -175,6 +175,32 @@ def interplay_families(holes, which="ABCD"):
                 return ["Integer", "Type", "IntegerLiteral"]
             return inner(node)
         out.append(("the same function applied to a leaf argument", applied, 13))
+
+    if "G" in which:
+        out.append(("a group of 1 leaf definition under a binder, its body a function or a member", group_under_binder(0, 1), 9))
+    if "H" in which:
+        inner1 = group_under_binder(1, 1)
+
+        def applied(node):
+            if node.depth == 1:
+                return ["Application"]
+            if node.depth == 2 and node.slot == 1:
+                return ["Integer", "Type", "IntegerLiteral"]
+            return inner1(node)
+        out.append(("the same one-definition function applied to a leaf argument", applied, 11))
+    if "I" in which:
+        inner2 = group_under_binder(2, 1)
+
+        def applied_twice(node):
+            # ((a : type) => (t = a; (x : t) => x)) int 3
+            if node.depth == 1:
+                return ["Application"]
+            if node.depth == 2:
+                return ["Application"] if node.slot == 0 else ["IntegerLiteral", "Integer", "Variable"]
+            if node.depth == 3 and node.slot == 1 and node.parent.slot == 0 and node.parent.depth == 2:
+                return ["Integer", "Type", "IntegerLiteral"]
+            return inner2(node)
+        out.append(("the same one-definition function applied to two leaf arguments", applied_twice, 13))
 
     def group_in_annotation(node):
         # c : (a = int; b = bool; a) = true; c
